@@ -28,7 +28,7 @@ inductive Entry (β : Type) where
   | file (path : String) (m : Meta) (data : List β)
   | symlink (path : String) (m : Meta) (target : String)
   | other (path : String)              -- hard link, device, fifo, … : unsupported
-  deriving Repr
+  deriving Repr, DecidableEq
 
 structure MRec (H : Type) where
   unique : Bool
